@@ -782,6 +782,8 @@ def build(chk: Check) -> None:
             for kw in ({}, {"return_f_hat": True}, {"angular_momentum": 1, "meson_radius": D_SYM},
                        {"phsp_factor": X, "angular_momentum": L_SYM, "meson_radius": D_SYM}, {"phsp_factor": X, "angular_momentum": L_SYM, "meson_radius": D_SYM, "return_f_hat": True}):
                 formulate_equation(chk, RLP, n, p, kw)
+    C.phsp_factor_history(chk, RLP, FK + "RelativisticPVector.formulate")
+    C.phsp_factor_history(chk, RLP, FK + "RelativisticPVector.formulate", {"return_f_hat": True})
 
     passthrough_all(chk, ns, poles)
     breit_wigner(chk, ells)
